@@ -4,6 +4,7 @@ import (
 	"context"
 	"fmt"
 	"runtime"
+	"strings"
 	"sync"
 	"sync/atomic"
 	"testing"
@@ -410,14 +411,26 @@ func TestGenC12(t *testing.T) {
 	{
 		var wg sync.WaitGroup
 		var mu sync.Mutex
-		for _, closer := range []string{"client", "server"} {
+		for _, closer := range []string{"client", "server", "client-relay-send-down", "server-relay-send-down",
+			"client-relay-unreachable-send-down", "server-relay-unreachable-send-down"} {
 			wg.Add(1)
 			go func(closer string) {
 				defer wg.Done()
 				rr := r.sub(len(closer) + 4242)
-				c, s, cleanup, err := kitPair(rr)
+				c, s, cleanup, relay, err := kitPairRelay(rr)
 				if cleanup != nil {
-					defer cleanup()
+					defer func() {
+						// closing everything must terminate too (not in a bubble: no watchdog here)
+						cd := make(chan struct{})
+						go func() { cleanup(); close(cd) }()
+						select {
+						case <-cd:
+						case <-time.After(15 * time.Second):
+							mu.Lock()
+							q.fail("c12:mailbox-close-not-bounded:cleanup,"+closer, "closing both mailbox connections and the server did not return within 15 s")
+							mu.Unlock()
+						}
+					}()
 				}
 				mu.Lock()
 				q.stat("mailbox_close_cases", 1)
@@ -429,8 +442,41 @@ func TestGenC12(t *testing.T) {
 					return
 				}
 				a, b := c, s // a closes, b is blocked in Read
-				if closer == "server" {
+				if strings.HasPrefix(closer, "server") {
 					a, b = s, c
+				}
+				if strings.HasSuffix(closer, "send-down") {
+					// the relay starts failing every Send while the closer has a write under way (its retry loop is
+					// at work); Close must still return
+					_, _ = a.Write([]byte("hello"))
+					buf := make([]byte, 16)
+					_ = b.SetReadDeadline(time.Now().Add(5 * time.Second))
+					_, _ = b.Read(buf)
+					relay.mu.Lock()
+					relay.fault = func(string, int) string { return "senderr" }
+					relay.unreachable = strings.Contains(closer, "unreachable") // ... and no new send stream can be opened
+					relay.mu.Unlock()
+					go func() { _, _ = a.Write([]byte("stuck in the retry loop")) }()
+					time.Sleep(300 * time.Millisecond)
+					done := make(chan struct{})
+					t0 := time.Now()
+					go func() { _ = a.Close(); close(done) }()
+					returned := false
+					select {
+					case <-done:
+						returned = true
+					case <-time.After(8 * time.Second):
+					}
+					took := time.Since(t0)
+					mu.Lock()
+					q.check(returned, "c12:mailbox-close-not-bounded:"+closer, func() string {
+						return fmt.Sprintf("%s: the relay fails every Send and a Write is in its retry loop: Close did not return within 8 s (waited %v)", closer, took)
+					})
+					mu.Unlock()
+					relay.mu.Lock()
+					relay.fault = nil
+					relay.mu.Unlock()
+					return
 				}
 				// some traffic first, so both directions are past the handshake
 				_, _ = a.Write([]byte("hello"))
